@@ -12,6 +12,7 @@ ALIAS = {"C01.R7": "C04.R5", "C02.R5": "C04.R5"}
 
 
 def extra(res, facts, entries, protos):
+    _proto.state_rule(res, "C04.R6", facts, entries)
     # key admission: a v3 public key other than the signer's canonical encoding must not be taken for it (symbolic tag byte)
     from .. import keys_sem
     for f in keys_sem.v3_public_key_admission(facts, "C04.S4"):
